@@ -1043,5 +1043,13 @@ def replay(ctx, payload):
             for b in bad:
                 print("FAIL", b[0])
             return 1 if bad else 0
+    if inp.get("stream") == "sc":
+        impl, crashes = run_cases(nd_harness(ctx), [inp["ops"]])
+        model, _ = run_cases(ctx.driver("drv_netdecision"), [inp["ops"]])
+        print("ops  :", inp["ops"])
+        print("impl :", impl[0], crashes)
+        print("model:", model[0])
+        # rc 0 only if the real code agrees with the model again (the oracle needs the generator's plan)
+        return 0 if impl[0] == model[0] and not crashes else 1
     print(json.dumps(inp)[:2000])
     return 1
